@@ -117,7 +117,18 @@ def scenario(draw, tier="quick"):
         first_book = next(st_ for st_ in steps if st_.get("k") == "book" and st_.get("rc") and "atb" in st_["rc"][0])
         first_book["rc"].insert(0, {"r": 0, "atb": [[t, 777.0] for t, _ in atb[:2]] or [[max(0, mid - 1), 777.0]],
                                     "atl": [[mid + 1 + i, 0.01] for i in range(2)]})
+    bsp_inplay = False
+    if ri == 0 and not inplay_only and draw(st.integers(0, 4)) == 0:
+        # starting-price market already in play with the starting price reconciled when the orders are placed
+        bsp_inplay = True
+        spec["bsp_market"] = True
+        steps.insert(0, {"dt": 1000, "k": "inplay", "status": "OPEN", "bet_delay": 0, "bump": True,
+                         "bsp": [world.ladder_prices(spec)[mid], 3.0]})
+        for s_ in strategies:
+            for e_ in s_["script"]:
+                e_["at"] += 1
     return {"markets": [spec], "strategies": strategies, "clients": [{"min_bet_validation": False}], "_ri": ri,
+            "subclassed_sim_middleware": draw(st.integers(0, 4)) == 0,
             "listener_kwargs": {"inplay": True} if inplay_only else {},
             "config": {"simulated_strategy_isolation": draw(st.integers(0, 2)) > 0, "simulation_available_prices": False}}
 
@@ -154,6 +165,10 @@ def check(sc):
         classes.add("inplay-only-listener")
     if ri:
         classes.add("handicap-line-listed-second")
+    if sc.get("subclassed_sim_middleware"):
+        classes.add("subclassed-simulated-middleware")
+    if sc["markets"][0].get("bsp_market"):
+        classes.add("in-play-after-bsp-reconciliation")
     if any(u.status == "SUSPENDED" and u.idx > 1 for u in ups) and not sc.get("listener_kwargs"):
         classes.add("suspension-with-resting-orders")
     orders = []
